@@ -13,4 +13,9 @@ theorem C06_bracketed (p : Plan) :
   bracketed shape shape_good p
 theorem C06_always_closed (p : Plan) : (runTraced shape p).closed = true := always_closed shape shape_good p
 
+theorem publish_outside : publishOutside = true := by decide
+
+theorem C06_publish_fault (k : Nat) (c : ExcClass) : runPublishFault shape publishOutside k c = expectedPublishFault k c := by
+  rw [publish_outside]; exact publish_fault_wellformed shape shape_good k c
+
 end SemantivaModel.Tie.C06
